@@ -525,9 +525,13 @@ pub mod inner {
         ///
         /// The length of each slice equals [`self.width()`](Self::width).
         pub fn rows(&self) -> impl Iterator<Item = &[T]> {
+            let (w, h) = self.dims;
             self.data
-                .chunks(self.stride as usize)
-                .map(|row| &row[..self.dims.0 as usize])
+                // Stride can only be zero if width is as well
+                .chunks(self.stride.max(1) as usize)
+                // The data may extend past the last row
+                .take(h as usize)
+                .map(move |row| &row[..w as usize])
         }
 
         /// Returns an iterator over the elements of `self` in row-major order.
@@ -554,9 +558,13 @@ pub mod inner {
         ///
         /// The length of each slice equals [`self.width()`](Self::width).
         pub fn rows_mut(&mut self) -> impl Iterator<Item = &mut [T]> {
+            let (w, h) = self.dims;
             self.data
-                .chunks_mut(self.stride as usize)
-                .map(|row| &mut row[..self.dims.0 as usize])
+                // Stride can only be zero if width is as well
+                .chunks_mut(self.stride.max(1) as usize)
+                // The data may extend past the last row
+                .take(h as usize)
+                .map(move |row| &mut row[..w as usize])
         }
 
         /// Returns a mutable iterator over all the elements of `self`,
